@@ -9,7 +9,9 @@ for sid in ids:
     meta=json.load(open(f'{d}/meta.json'))
     prop=sid.split('-')[0]
     props=[prop]+extra.get(sid,[])
-    r=subprocess.run(['/verif/tools/try_mutant.sh',f'{d}/patch.diff']+props,capture_output=True,text=True)
+    env=dict(os.environ)
+    if meta.get('no_std_only'): env['NOSTD']='1'
+    r=subprocess.run(['/verif/tools/try_mutant.sh',f'{d}/patch.diff']+props,capture_output=True,text=True,env=env)
     lines=[l for l in r.stdout.strip().split('\n') if l.startswith(('DETECTED','missed','ERROR','BUILD'))]
     meta['checked']={'command':'tools/try_mutant.sh patch.diff '+' '.join(props)+' (git -C /repo apply; ./check <P> quick budget; git -C /repo checkout -- .)','results':lines}
     meta['detected']=any(l.startswith('DETECTED '+prop) for l in lines)
